@@ -5,7 +5,7 @@ from vlib.core import Machinery
 LEVEL = "model_checking"
 
 BASE = dict(Keys={1}, MaxTs=2, NCallers=3, MaxCalls=3, CmpStrict=True, WriteInLock=True, StoreFirst=False,
-            CountReject=True, ReturnOnReject=True)
+            CountReject=True, ReturnOnReject=True, SharedRegister=False)
 
 
 def model_check(ctx):
@@ -17,13 +17,16 @@ def model_check(ctx):
         grid += [dict(BASE, MaxTs=3, MaxCalls=4), dict(BASE, Keys={1, 2}, NCallers=3, MaxCalls=4)]
     for c in grid:
         ctx.tlc("Ordered", "Ordered_mc.cfg", consts=c, workers=ctx.pick(4, 6), timeout=3000)
-    dev = [("CmpStrict", False, {"Mono", "OnlyNewer"}), ("WriteInLock", False, {"Mono", "OnlyNewer"}),
-           ("StoreFirst", True, {"Mono", "OnlyNewer"}), ("CountReject", False, {"Accounting"}),
-           ("ReturnOnReject", False, {"Accounting", "FwdOK"})]
+    dev = [("CmpStrict", False, {"Mono", "OnlyNewer", "Independent"}, {}),
+           ("WriteInLock", False, {"Mono", "OnlyNewer", "Independent"}, {}),
+           ("StoreFirst", True, {"Mono", "OnlyNewer", "Independent"}, {}), ("CountReject", False, {"Accounting"}, {}),
+           ("ReturnOnReject", False, {"Accounting", "FwdOK"}, {}),
+           # shared_register_on_collision: two keys, one register (needs two keys to show)
+           ("SharedRegister", True, {"NoFalseReject", "Independent"}, dict(Keys={1, 2}, NCallers=2))]
     rej = []
-    for name, val, expect in dev:
-        r = ctx.tlc("Ordered", "Ordered_mc.cfg", consts=dict(BASE, **{name: val}), workers=4, expect_ok=False, count=False,
-                    tag="nv_" + name)
+    for name, val, expect, more in dev:
+        r = ctx.tlc("Ordered", "Ordered_mc.cfg", consts=dict(BASE, **dict(more, **{name: val})), workers=4, expect_ok=False,
+                    count=False, tag="nv_" + name)
         if r["violated"] not in expect:
             raise Machinery("deviation %s=%s is not rejected by the model (violated=%s): vacuity" % (name, val, r["violated"]))
         rej.append("%s=%s -> %s" % (name, val, r["violated"]))
@@ -105,6 +108,99 @@ def validate(ctx, name, blocks, on_reject, max_rounds=6):
     return nb, nrej
 
 
+def many_names(ctx):
+    """N distinct names, one point each (the first of its name, positive timestamp, timestamps decreasing in dispatch
+    order): the registers of different names are independent (Ordered!Independent), so every point must be accepted.
+    The driver writes the projection of the run (names that did not arrive exactly once + known 32-bit colliding pairs +
+    a seeded sample) and OrderedTrace.tla decides every projected name and the totals."""
+    n = ctx.pick(300000, 1500000)
+    nsample = ctx.pick(2000, 5000)
+    tf = os.path.join(ctx.out, "ord_many_events.ndjson")
+    res = ctx.go_test("ord", run="^TestManyNames$", timeout=ctx.pick(900, 3000), expect_ok=False,
+                      env=dict(VERIF_ORD_TRACE=tf, VERIF_ORD_MANY_N=n, VERIF_ORD_MANY_SAMPLE=nsample))
+    events = ctx.read_ndjson(tf) if os.path.exists(tf) else []
+    if res["rc"] != 0:
+        if "panic:" in res["text"] or "fatal error:" in res["text"]:
+            ctx.violation("ordered-panics family=many-names", "the relay panicked while validating order under concurrent "
+                          "dispatch of many names", dict(log=res["log"], tail=res["text"][-2500:]))
+            return
+        raise Machinery("driver ord (many names) failed (rc=%s); log %s\n%s" % (res["rc"], res["log"], res["text"][-2500:]))
+    if not events or events[-1].get("ev") != "done":
+        raise Machinery("driver ord (many names) did not finish")
+    blocks = split(events)
+    tot = dict(blocks[-1][-1])
+    blocks[-1][-1].pop("oddnames", None)
+    if tot.get("ev") != "total" or tot["n"] < n:
+        raise Machinery("many names: no totals / fewer names than asked for: %s" % json.dumps(tot)[:300])
+    if tot["garbled"]:
+        raise Machinery("many names: %d points arrived at the capture route with another name/value/timestamp than sent "
+                        "(not what this property is about; see %s)" % (tot["garbled"], tf))
+    if tot["fwd"] == 0:
+        raise Machinery("many names: nothing arrived at the capture route (vacuous)")
+    ctx.log("many names: n=%d forwarded=%d out_of_order+%d not-exactly-once=%d projected=%d dispatch %d ms" %
+            (tot["n"], tot["fwd"], tot["ooo"], tot["odd"], tot["listed"], tot["dispatch_ms"]))
+    rejected_names = []
+
+    def on_reject(b, i):
+        ev, h = b[i], b[0]
+        if ev["ev"] == "end":
+            rejected_names.append(h.get("name"))
+            sig = "first-point-of-name-rejected family=many-names"
+            what = ("among %d distinct names each sent once (positive timestamps, decreasing in dispatch order) the only point "
+                    "of %r (ts=%s) %s; in all, %d names did not arrive exactly once, out_of_order counter +%d" %
+                    (tot["n"], h.get("name"), b[1].get("ts"),
+                     "was not forwarded" if not ev["fwd"] else "arrived %s times at the route" % ev["times"],
+                     tot["odd"], tot["ooo"]))
+            ctx.violation(sig, what, dict(name=h.get("name"), why_projected=h.get("why"), events=b[:i + 1],
+                                          names_not_exactly_once=tot.get("oddnames", [])[:40], totals={k: tot[k] for k in
+                                          ("n", "fwd", "ooo", "odd", "goroutines", "ts_hi", "ts_lo")}))
+        elif ev["ev"] == "finp":
+            sig = "rejection-accounting family=many-names"
+            what = "name %r: bad-metrics record present=%s (call %s) does not match the outcome of its only call" % (
+                h.get("name"), ev["bad"], ev["badcall"])
+            ctx.violation(sig, what, dict(events=b[:i + 1]))
+        elif ev["ev"] == "total" and rejected_names:
+            ctx.note("many names: totals not judged (the blocks of the rejected names were taken out of the trace)")
+        elif ev["ev"] == "total":
+            sig = "totals family=many-names"
+            what = ("%d calls, every projected name accepted, but %d points at the route and out_of_order counter +%d" %
+                    (ev["n"], ev["fwd"], ev["ooo"]))
+            ctx.violation(sig, what, dict(total={k: v for k, v in ev.items() if k != "oddnames"}))
+        else:
+            ctx.violation("trace-unmatched family=many-names ev=%s" % ev["ev"], "event not accepted: %s" % json.dumps(ev),
+                          dict(events=b[:i + 1]))
+
+    name_blocks = blocks[:-1]
+    nb, nrej = validate(ctx, "many", blocks, on_reject)
+    if nrej and tot["odd"] > nrej:
+        ctx.note("many names: %d names did not arrive exactly once; TLC decided %d of them (re-validation stops after 6)" %
+                 (tot["odd"], nrej))
+    if not ctx.violations:
+        # binding: a point of the sample pretended lost, and a counter increase pretended, must be rejected by the trace spec
+        cand = copy.deepcopy([e for b in name_blocks[:25] for e in b] + blocks[-1])
+        idx = next(i for i, e in enumerate(cand) if e["ev"] == "end" and e["fwd"])
+        cand[idx]["fwd"], cand[idx]["times"] = False, 0
+        hit = []
+        validate(ctx, "selftest3", split(cand), lambda b, i: hit.append(b[i]), max_rounds=1)
+        if not hit or hit[0]["ev"] != "end":
+            raise Machinery("binding self-test failed: a rejected first point of a name was accepted by the trace spec")
+        cand = copy.deepcopy([e for b in name_blocks[:25] for e in b] + blocks[-1])
+        cand[-1]["ooo"] += 1
+        hit = []
+        validate(ctx, "selftest4", split(cand), lambda b, i: hit.append(b[i]), max_rounds=1)
+        if not hit or hit[0]["ev"] != "total":
+            raise Machinery("binding self-test failed: an unexplained out_of_order count was accepted by the trace spec")
+    why = {}
+    for b in name_blocks:
+        w = b[0].get("why", "?").split(":")[0]
+        why[w] = why.get(w, 0) + 1
+    ctx.cov["many_names"] = dict(names=tot["n"], forwarded=tot["fwd"], out_of_order=tot["ooo"], not_exactly_once=tot["odd"],
+                                 projected=why, goroutines=tot["goroutines"], known_32bit_colliding_pairs=tot["pairs"],
+                                 expected_pairs_32bit_key=round(tot["n"] ** 2 / 2.0 / 2 ** 32, 1),
+                                 expected_pairs_64bit_key=tot["n"] ** 2 / 2.0 / 2 ** 64)
+    return tot["n"]
+
+
 def run(ctx):
     model_check(ctx)
     rng = random.Random(ctx.seed)
@@ -147,6 +243,10 @@ def run(ctx):
     if not ctx.violations:
         selftest(ctx, blocks)
 
+    nmany = 0
+    if not any(v.get("sig", "").startswith("ordered-panics") for v in ctx.violations if isinstance(v, dict)):
+        nmany = many_names(ctx) or 0
+
     ends = [e for b in blocks for e in b if e["ev"] == "end"]
     nfwd = sum(1 for e in ends if e["fwd"])
     if not ctx.violations and (not ends or nfwd == 0 or nfwd == len(ends)):
@@ -167,18 +267,25 @@ def run(ctx):
     if overl == 0 and not ctx.violations:
         raise Machinery("no history had overlapping calls (vacuous for the concurrency claim)")
     cov = ctx.cov
-    cov["evaluations"] = len(ends)
+    cov["evaluations"] = len(ends) + nmany
     cov["distinct_nontrivial"] = overl
     cov["calls_forwarded"] = nfwd
     cov["calls_rejected"] = len(ends) - nfwd
     cov["max_calls_in_flight"] = maxpend
     cov["rule"] = ("histories = one metric key each (with and without leading dot), 4-16 goroutines x 2-4 calls, timestamp patterns "
                    "increasing / equal / decreasing / random-in-a-range-of-5 / zeros, bases 1..2^31; every call and the final "
-                   "accounting judged by OrderedTrace.tla (linearization search); non-trivial = histories with >= 2 calls in flight")
+                   "accounting judged by OrderedTrace.tla (linearization search); non-trivial = histories with >= 2 calls in flight; "
+                   "plus the many-names run: 300 000 (quick) / 1 500 000 (thorough) distinct realistic names from 8 templates, one "
+                   "point each, timestamps decreasing in dispatch order, 4 goroutines with disjoint name sets, judged by "
+                   "OrderedTrace.tla on the projection to the names that did not arrive exactly once + 26 pairs colliding under "
+                   "common 32-bit hashes + a seeded sample, and on the totals")
     for b in blocks:
         if len(cov["samples"]) < 2 and any(e["ev"] == "end" and not e["fwd"] for e in b):
             ctx.sample(dict(history=[{k: v for k, v in e.items() if k in ("ev", "c", "ts", "dot", "fwd", "ooo", "bad")} for e in b][:30]))
-    ctx.assumptions += ["one register per history: every goroutine of a history works on the same key, so the increase of the "
+    ctx.assumptions += ["many names: a name whose point arrived exactly once at the route and that is not in the sample is taken "
+                        "as accepted without a TLC verdict of its own (names are independent: Ordered!Independent is "
+                        "model-checked); the totals (calls, points at the route, counter) are judged by TLC",
+                        "one register per history: every goroutine of a history works on the same key, so the increase of the "
                         "process-global out_of_order counter during the history belongs to it",
                         "bad-metrics keeps one record per key: its presence and that it holds one of the rejected calls is checked, "
                         "not one record per rejection",
